@@ -14,4 +14,5 @@ def check(ctx, prog):
     capacity.rule_stack_height(ctx, prog, want=("R-SHAPES", "R-CAPACITY"))
     search.rule_solve_one(ctx, prog, want=("R-CAPACITY",))
     capacity.rule_probe_guard(ctx, prog)
+    search.rule_cost_table(ctx, prog)
     dispatch.rule_mode_arith(ctx, prog)  # scope: the capacity guards hold in both execution modes
